@@ -613,8 +613,15 @@ def seq_program(idx, sym=('d1', 'd2', 't1')):
             main += [['await', lab], ['obs', 'after_await', lab]]
     main += [['idle', 'A'], ['idle', 'B'], ['obs_all', 'end']]
     reals = {'d1': ['0', '1/4'], 'd2': ['0', '1/5'], 't1': ['0', '3/10']}
-    cfg = dict(buses=['A', 'B'], order=['A', 'B'] if rng.random() < 0.5 else ['B', 'A'], parallel=['B'] if parB else [], reals=reals,
-               handlers=handlers, main=main, horizon=7, m3=True, features=dict(ph=ph, chA=chA, chB=chB, parB=parB))
+    order = ['A', 'B'] if rng.random() < 0.5 else ['B', 'A']
+    timed = rng.random() < 0.3          # drawn last so that the programs generated before this feature existed stay the same
+    cfg = dict(buses=['A', 'B'], order=order, parallel=['B'] if parB else [], reals=reals,
+               handlers=handlers, main=main, horizon=7, m3=True, features=dict(ph=ph, chA=chA, chB=chB, parB=parB, timed=timed))
+    if timed:
+        # the first root carries a short event time-out; its handlers' durations range beyond it
+        cfg['timeouts'] = {'P1': '1/4'}
+        cfg['T'] = '1/4'
+        reals['d1'] = ['0', '3/5']
     used = json_dumps(handlers) + json_dumps(main)
     for v in list(reals):
         if f'"{v}"' not in used:
